@@ -25,6 +25,13 @@ inductive LinOp
   | set (m : K → Option V)
   | snap (m : K → Option V)
 
+def LinOp.caller : LinOp → Option Nat
+  | .get t _ _ => some t
+  | _ => none
+
+/-- the callers of `Get` that have been linearized, in linearization order -/
+def callers (lin : List (Nat × LinOp)) : List Nat := lin.filterMap (fun e => e.2.caller)
+
 structure LSt where
   base : St
   waiters : Cid → List Nat
